@@ -70,6 +70,11 @@ type LoggerBase struct {
 	Layout Layout     `PluginElement:"Layout?"`          // Layout for formatting logs
 }
 
+// getLoggerBase gives access to the shared configuration of any logger.
+func (c *LoggerBase) getLoggerBase() *LoggerBase {
+	return c
+}
+
 // GetName returns the name of the logger.
 func (c *LoggerBase) GetName() string {
 	return c.Name
